@@ -19,7 +19,8 @@ func init() {
 			"(R2) Call.SetRegion is called only by getRegionAndClientForRPC and the establisher's probe; in getRegionAndClientForRPC the region stamped on the call, the region whose Client() is returned and the region resolved for that call's table/key are one value, and the stamp dominates the success return; " +
 			"(R3) sibling validators: getRegionFromCache and metaLookup return the approximately located region only if its fully qualified table equals the requested table and NOT(len(stop) != 0 && key >= stop) in canonical form, with the call's own Table()/Key() flowing unchanged into them; " +
 			"(R4) one search-key builder: createRegionSearchKey is the only producer of keys for the cache lookup, the overlap search and the meta scan, and appends table, ',', key, ',', c with c > '9'; " +
-			"(R5) the cache tree is ordered by region.Compare and get() returns the predecessor of the search key (Seek then Prev on the same enumerator).",
+			"(R5) the cache tree is ordered by region.Compare and get() returns the predecessor of the search key (Seek then Prev on the same enumerator)." +
+			" Added after the seeded-change rounds: (R1) in multi.toProto every action is appended to the group looked up or created under c.Region() of the call of the same iteration (nothing carried over from the previous call); (R2 shared with C08.R5) the three discoverers detach every evicted overlap from the connection cache; (R5 shared with C08.R4) the overlap search finds every intersecting cached region.",
 		Residue:   "that region.Compare and the b-tree seek locate the owning region for every key and layout (value-level: C16/C08 residue)",
 		Technique: "value provenance over SSA, guarded-return path search with canonical byte-comparison forms, who-may-call tables, constant extraction",
 		Run:       runC01,
